@@ -14,6 +14,7 @@ pub fn c04(tier: Tier) -> Vec<Space> {
     let mut v = vec![
         ball(c, 2, variants()),
         field_full("MSG-FIELD(int<=14)", c, variants(), sel_int, 1, 14),
+        via_line(c),
     ];
     match tier {
         Tier::Quick => {
@@ -112,7 +113,7 @@ pub fn c13(tier: Tier) -> Vec<Space> {
 
 pub fn c14(_tier: Tier) -> Vec<Space> {
     let c = cfg("C14", true);
-    vec![lengths(c), ball1_all_lengths(c, 64), text_lengths(c, 132), binary(c, 130)]
+    vec![lengths(c), ball1_all_lengths(c, 64), text_lengths(c, 132), binary(c, 130), via_line(c)]
 }
 
 pub fn c15(_tier: Tier) -> Vec<Space> {
@@ -123,4 +124,29 @@ pub fn c15(_tier: Tier) -> Vec<Space> {
 pub fn c16(_tier: Tier) -> Vec<Space> {
     let c = cfg("C16", false);
     vec![radio(c)]
+}
+
+/// C01 (totality) over the payload functions: only panics are reported.
+pub fn c01_msg(tier: Tier) -> Vec<Space> {
+    let c = cfg("C01", false);
+    let mut v = vec![lengths(c), ball1_all_lengths(c, 64), via_line(c), text_lengths(c, 132), binary(c, 130), radio(c)];
+    if tier == Tier::Thorough {
+        v.push(ball(c, 2, variants()));
+        v.push(field_full("MSG-FIELD(all<=14)", c, variants(), |_| true, 1, 14));
+    }
+    v
+}
+
+/// C18 (build equivalence): digests of canonical outcomes; the capacity rule.
+pub fn c18_msg(tier: Tier) -> Vec<Space> {
+    let c = cfg("C18", false);
+    let mut v = vec![lengths(c), ball1_all_lengths(c, 64), via_line(c), text_lengths(c, 132), binary(c, 130)];
+    if tier == Tier::Thorough {
+        v.push(ball(c, 2, variants()));
+        v.push(field_full("MSG-FIELD(all<=14)", c, variants(), |_| true, 1, 14));
+        v.push(radio(c));
+        v.push(text_deviations(c, variants(), false));
+        v.push(text_trim(c, variants()));
+    }
+    v
 }
